@@ -77,7 +77,7 @@ func init() {
 				IDGenProb: 30, ErrsReader: 30, MinClients: 1, MaxClients: 3, MaxOps: scale(th, 7, 14),
 				Ops:     map[string]int{"add": 30, "addall": 8, "addmany": 8, "wait": 8, "close": 8, "purge": 3, "sleep": 6, "qclose": 1, "release": 3, "yield": 3},
 				Ctrl:    map[string]int{"pause": 3, "pausewait": 3, "resume": 4, "stop": 2, "restart": 3, "tune": 5, "sleep": 3},
-				MaxCtrl: scale(th, 4, 8), GatedProb: 20, Outs: []int{OutVal, OutVal, OutErr, OutPanicStr}, MaxBatch: 5, BurstProb: scale(th, 1, 4)}
+				MaxCtrl: scale(th, 4, 8), GatedProb: 20, Outs: []int{OutVal, OutVal, OutErr, OutPanicStr}, MaxBatch: 5, BurstProb: scale(th, 4, 15)}
 			return genProgram(t, "C01", pf, th)
 		},
 		Oracles: []oracleFn{oC01},
@@ -146,7 +146,7 @@ func init() {
 			pf := &Profile{Kinds: allKinds, QKinds: memQKinds, MaxQueues: 1, Concs: []int{1, 1, 1, 2, 3}, MinClients: 1, MaxClients: 2, MaxOps: scale(th, 8, 14),
 				Ops:     map[string]int{"add": 30, "addall": 8, "addmany": 12, "purge": 2, "settle": 3, "release": 4, "yield": 3},
 				Ctrl:    map[string]int{"pausewait": 4, "resume": 4, "settle": 2},
-				MaxCtrl: 4, GatedProb: 25, MaxBatch: 6, BurstProb: scale(th, 2, 6), Prios: []int{0, 0, 1, 1, 2, -1, -1, 5, -9223372036854775808, 9223372036854775807}, StartPausedProb: 40}
+				MaxCtrl: 4, GatedProb: 25, MaxBatch: 6, BurstProb: scale(th, 10, 30), Prios: []int{0, 0, 1, 1, 2, -1, -1, 5, -9223372036854775808, 9223372036854775807}, StartPausedProb: 40}
 			return genProgram(t, "C04", pf, th)
 		},
 		Oracles: []oracleFn{oC04},
